@@ -122,9 +122,20 @@ func VerifEncodeDropTx(db *DB) []byte {
 // VerifSetStoreID gives the store a concrete node id.
 func VerifSetStoreID(s *Store, id uint64) { s.id = id }
 
-// VerifCommitPage1 commits one rollback-journal transaction that rewrites page 1 (symbolic content).
-func VerifCommitPage1(db *DB) ltx.Pos {
+// VerifCommitPage1 commits one rollback-journal transaction that rewrites page 1
+// (symbolic content), following SQLite's locking protocol as owner 1. ok is
+// false when the locks are not available (e.g. a snapshot is reading).
+func VerifCommitPage1(db *DB) (pos ltx.Pos, ok bool) {
 	ctx := context.Background()
+	defer func() { _ = db.Unlock(ctx, 1, []LockType{LockTypePending, LockTypeReserved, LockTypeShared}) }()
+	if !db.TryRLocks(ctx, 1, []LockType{LockTypeShared}) {
+		return db.Pos(), false
+	}
+	for _, t := range []LockType{LockTypeReserved, LockTypePending, LockTypeShared} {
+		if got, _ := db.TryLocks(ctx, 1, []LockType{t}); !got {
+			return db.Pos(), false
+		}
+	}
 	n0 := db.PageN()
 	jf, err := db.CreateJournal()
 	must(err)
@@ -135,5 +146,5 @@ func VerifCommitPage1(db *DB) ltx.Pos {
 	verifHeaderPage(p, n0, false)
 	must(db.WriteDatabaseAt(ctx, dbf, p, 0, 1))
 	must(db.RemoveJournal(ctx))
-	return db.Pos()
+	return db.Pos(), true
 }
